@@ -61,11 +61,12 @@ class WithFloat:
 SHAPES = ["none", "float", "nan", "inf", "int", "bigint", "bool", "str_num", "str_bad", "str_empty", "bytes_num",
           "list1", "list2", "list3", "list_str", "list_nan", "list_none", "tuple1", "tuple2", "empty", "dict",
           "nested", "withfloat", "npfloat", "ndarray1", "list_bigint"]
-QUICK_SHAPES = SHAPES
+XSHAPES = SHAPES + ["list2x", "list3x"]      # lists whose elements range over finite/+inf/-inf/NaN independently
 
 
 def build(shape, tag):
     v = lambda k: sx.sym_real(f"{tag}_v{k}")  # noqa: E731
+    fl = lambda k: sx.sym_float(f"{tag}_v{k}", ("finite", "inf", "-inf", "nan"))  # noqa: E731
     if shape == "none":
         return None
     if shape == "float":
@@ -94,6 +95,10 @@ def build(shape, tag):
         return [v(0), v(1)]
     if shape == "list3":
         return [v(0), 1.0, v(2)]
+    if shape == "list2x":
+        return [fl(0), fl(1)]
+    if shape == "list3x":
+        return (fl(0), 1.0, fl(2))
     if shape == "list_str":
         return ["5", v(1)]
     if shape == "list_nan":
@@ -144,6 +149,7 @@ def oracle_complete(R, n_obj):
         if not sx.is_symnum(f) and math.isnan(f):
             return False, None
         vals.append(f)
+    # (element-wise rule of the statement: NaN-free, float-convertible, one per objective - nothing about sums)
     if len(vals) != n_obj:
         return False, None
     return True, vals
@@ -300,13 +306,65 @@ def make_optimize_body(n_trials_opts, n_obj_opts, shapes, max_reports, with_samp
     return body
 
 
+# ------------------------------------------------------------------------------------------------ optimize called twice
+def optimize_twice_body():
+    """a second optimize() on the same study runs exactly n_trials trials whatever ended the first call (stop(), exception,
+    plain return), for n_jobs in {1, 2}; objectives here are concrete so that worker threads never fork the explorer"""
+    first_end = sx.choose(["n_trials", "stop-from-callback", "stop-from-objective", "exception"], "first_end")
+    first_jobs = sx.choose([1, 2], "first_n_jobs")
+    second_jobs = sx.choose([1, 2], "second_n_jobs")
+    n2 = sx.choose([1, 2, 3], "second_n_trials")
+    outcome2 = sx.choose(["complete", "pruned", "caught"], "second_outcome")
+    study = optuna.create_study(storage=InMemoryStorage(), sampler=optuna.samplers.RandomSampler(seed=0))
+
+    def obj1(trial):
+        if first_end == "stop-from-objective":
+            trial.study.stop()
+        if first_end == "exception":
+            raise Boom("first")
+        return 1.0
+
+    def cb1(st, ft):
+        if first_end == "stop-from-callback":
+            st.stop()
+    try:
+        study.optimize(obj1, n_trials=2, n_jobs=first_jobs, callbacks=[cb1])
+    except Boom:
+        pass
+    n_before = len(study.get_trials(deepcopy=False))
+    calls = []
+
+    def obj2(trial):
+        if outcome2 == "pruned":
+            raise optuna.TrialPruned()
+        if outcome2 == "caught":
+            raise Caught("x")
+        return 2.0
+    import threading
+    lock = threading.Lock()
+
+    def cb2(st, ft):
+        with lock:
+            calls.append(ft.number)
+    sx.note("plans", [dict(outcome=f"second-call after {first_end}", first_jobs=first_jobs, second_jobs=second_jobs, n_trials=n2)])
+    study.optimize(obj2, n_trials=n2, n_jobs=second_jobs, catch=(Caught,), callbacks=[cb2])
+    trials = study.get_trials(deepcopy=False)
+    sx.reach("second-call")
+    assert len(trials) - n_before == n2, f"second optimize(n_trials={n2}, n_jobs={second_jobs}) ran {len(trials) - n_before} trials after the first call ended by {first_end}"
+    assert all(t.state.is_finished() for t in trials), "a trial is left unfinished"
+    assert sorted(calls) == list(range(n_before, n_before + n2)), f"callbacks ran for {sorted(calls)}"
+    exp = {"complete": TrialState.COMPLETE, "pruned": TrialState.PRUNED, "caught": TrialState.FAIL}[outcome2]
+    assert all(t.state == exp for t in trials[n_before:])
+    return True
+
+
 # ------------------------------------------------------------------------------------------------ tell obligations
-TELL_VALUES = ["none", "float", "nan", "list1", "list2", "str_num", "str_bad", "empty", "bigint"]
+TELL_VALUES = ["none", "float", "nan", "list1", "list2x", "list3x", "str_num", "str_bad", "empty", "bigint"]
 TELL_STATES = [None, TrialState.COMPLETE, TrialState.PRUNED, TrialState.FAIL, TrialState.RUNNING, TrialState.WAITING]
 
 
 def tell_body():
-    n_obj = sx.choose([1, 2], "n_obj")
+    n_obj = sx.choose([1, 2, 3], "n_obj")
     study = optuna.create_study(directions=["minimize"] * n_obj, storage=InMemoryStorage())
     pre_state = sx.choose(["RUNNING", "COMPLETE", "PRUNED", "FAIL", "WAITING"], "pre_state")
     by_number = bool(sx.choose(2, "by_number"))
@@ -416,8 +474,8 @@ def obligations(tier):
     obs = []
     if tier == "quick":
         obs.append(Obligation(
-            "optimize-1trial", make_optimize_body([1], [1, 2], SHAPES, 2, True, True), setup, CODE,
-            bounds=dict(n_trials=1, n_objectives=[1, 2], result_shapes=len(SHAPES), reports="0..2", sampler_fault=True, stop=True),
+            "optimize-1trial", make_optimize_body([1], [1, 2, 3], XSHAPES, 2, True, True), setup, CODE,
+            bounds=dict(n_trials=1, n_objectives=[1, 2, 3], result_shapes=len(XSHAPES), reports="0..2", sampler_fault=True, stop=True),
             shard_depth=4, budget_s=400, classify=classify, require_reach=["complete", "infeasible", "pruned", "exception"],
             describe="one trial through the real optimize loop; result shape, exception kind, reports, prune request, "
                      "after_trial fault, stop() all symbolic"))
@@ -428,7 +486,7 @@ def obligations(tier):
             describe="two trials: loop continuation, catch, propagation, callbacks once per trial, exact trial count"))
     else:
         obs.append(Obligation(
-            "optimize-2trials-faults", make_optimize_body([1, 2], [1, 2, 3], SHAPES, 2, True, True), setup, CODE,
+            "optimize-2trials-faults", make_optimize_body([1, 2], [1, 2, 3], XSHAPES, 2, True, True), setup, CODE,
             bounds=dict(n_trials=[1, 2], n_objectives=[1, 2, 3], result_shapes=len(SHAPES), reports="0..2", sampler_fault=True, stop=True),
             shard_depth=6, budget_s=1500, classify=classify, require_reach=["complete", "infeasible", "pruned", "exception"],
             describe="one or two trials, every behaviour symbolic incl. sampler after_trial faults"))
@@ -438,6 +496,10 @@ def obligations(tier):
             bounds=dict(n_trials=3, n_objectives=[1, 2], result_shapes=red, reports="0..1", stop=True),
             shard_depth=6, budget_s=1500, classify=classify, require_reach=["complete", "infeasible", "pruned", "exception"],
             describe="three trials over a reduced shape lattice"))
+    obs.append(Obligation(
+        "optimize-twice", optimize_twice_body, setup, CODE,
+        bounds=dict(first_end=4, n_jobs=[1, 2], second_n_trials=[1, 2, 3]), budget_s=300, classify=classify, require_reach=["second-call"],
+        describe="second optimize() after stop()/exception runs exactly n_trials trials, n_jobs in {1,2} (concrete objectives in worker threads)"))
     obs.append(Obligation(
         "tell", tell_body, setup, CODE,
         bounds=dict(pre_states=5, values=TELL_VALUES, states=[str(s) for s in TELL_STATES], skip_if_finished=[True, False], n_objectives=[1, 2]),
